@@ -179,6 +179,27 @@ def main():
         if len(serde_fields) < 5:
             missing.append("RawSourceMap(fields)")
 
+    # C18: serde view of MinimalRawSourceMap (what is_sourcemap parses): (rust field, JSON key)
+    mrsm = find("MinimalRawSourceMap", jt, r"pub struct MinimalRawSourceMap\s*\{(.*?)\n\}")
+    minimal_fields = None
+    if mrsm is not None:
+        minimal_fields = []
+        attrs = ""
+        for line in mrsm.splitlines():
+            s = line.strip()
+            if s.startswith("#["):
+                attrs += s
+            elif s.startswith("//") or not s:
+                continue
+            else:
+                m = re.match(r"pub(?:\(crate\))?\s+(\w+)\s*:", s)
+                if m:
+                    rn = re.search(r'rename\s*=\s*"([^"]+)"', attrs)
+                    minimal_fields.append((m.group(1), rn.group(1) if rn else m.group(1)))
+                attrs = ""
+        if len(minimal_fields) < 3:
+            missing.append("MinimalRawSourceMap(fields)")
+
     if missing:
         for m_ in missing:
             print("MISSING", m_)
@@ -213,6 +234,14 @@ def main():
     L.append("/-- serde view of `RawSourceMap` (jsontypes.rs): (rust field, JSON key as bytes, skipped when None). -/")
     L.append("def serdeFields : List (String × List Nat × Bool) := [")
     L.append(",\n".join('  ("%s", %s, %s)' % (f, lean_bytes(k.encode()), "true" if s else "false") for f, k, s in serde_fields))
+    L.append("]")
+    L.append("/-- C18: `serdeFields` with the rust field name as bytes: (rust field, JSON key, skipped when None). -/")
+    L.append("def rawFieldsB : List (List Nat × List Nat × Bool) := [")
+    L.append(",\n".join('  (%s, %s, %s)' % (lean_bytes(f.encode()), lean_bytes(k.encode()), "true" if s else "false") for f, k, s in serde_fields))
+    L.append("]")
+    L.append("/-- C18: serde view of `MinimalRawSourceMap` (jsontypes.rs): (rust field as bytes, JSON key as bytes). -/")
+    L.append("def minimalFields : List (List Nat × List Nat) := [")
+    L.append(",\n".join('  (%s, %s)' % (lean_bytes(f.encode()), lean_bytes(k.encode())) for f, k in minimal_fields))
     L.append("]")
     L.append("")
     L.append("end SmVerif.Consts")
